@@ -10,6 +10,7 @@ import (
 	"fmt"
 	"io"
 	"reflect"
+	"sort"
 	"strings"
 
 	el "github.com/hashicorp/eventlogger"
@@ -38,6 +39,17 @@ type FailingWrapper struct {
 	*aead.Wrapper
 	FailAt int
 	Calls  int
+	Failed bool // the failing call has happened
+}
+
+// KeyBytes is what the HMAC path asks the wrapper for: it counts (and fails) like Encrypt.
+func (f *FailingWrapper) KeyBytes(ctx context.Context) ([]byte, error) {
+	f.Calls++
+	if f.Calls == f.FailAt {
+		f.Failed = true
+		return nil, ErrWrapper
+	}
+	return f.Wrapper.KeyBytes(ctx)
 }
 
 var ErrWrapper = fmt.Errorf("harness: wrapper fails at this call")
@@ -45,6 +57,7 @@ var ErrWrapper = fmt.Errorf("harness: wrapper fails at this call")
 func (f *FailingWrapper) Encrypt(ctx context.Context, pt []byte, opt ...wrapping.Option) (*wrapping.BlobInfo, error) {
 	f.Calls++
 	if f.Calls == f.FailAt {
+		f.Failed = true
 		return nil, ErrWrapper
 	}
 	return f.Wrapper.Encrypt(ctx, pt, opt...)
@@ -148,8 +161,9 @@ func CheckOutput(b *Built, out interface{}, kc KeyCtx) []Problem {
 		case Clear:
 			if got != c.Token {
 				cls := "copy"
-				if got == encrypt.RedactedData && strings.HasPrefix(c.Class, "taggable:") {
-					// a public key of a Taggable that the filter treated as an untagged map
+				if got == encrypt.RedactedData && strings.HasPrefix(c.Class, "taggable:") && b.Value.Kind() == reflect.Struct {
+					// a public key of a Taggable inside a payload passed as a struct by value (not settable, see
+					// finding S13): the filter sweeps the Taggable like an untagged map. Counted, not judged here.
 					cls = "over-redaction"
 				}
 				ps = append(ps, Problem{cls, fmt.Sprintf("public value at %v was altered to %q", pathString(c.Path), trunc(got, 40))})
@@ -326,6 +340,10 @@ func RunOn(reuse *encrypt.Filter, c Case) *Result {
 		}
 		return r
 	}
+	// fails closed: a wrapper call that failed is a failed step - an error, nothing forwarded
+	if fw != nil && fw.Failed {
+		r.Problems = append(r.Problems, Problem{"leak", fmt.Sprintf("the wrapper failed (its call #%d) while the event was being filtered, yet Process returned no error (forwarded=%v): a failing step must fail the event, not degrade it", fw.FailAt, r.Out != nil)})
+	}
 	if r.Out == nil {
 		return r
 	}
@@ -336,7 +354,73 @@ func RunOn(reuse *encrypt.Filter, c Case) *Result {
 			r.Problems = append(r.Problems, Problem{"copy", "the forwarded event shares its Formatted table with the event Process was given: formatting the copy downstream modifies the original"})
 		}
 	}
+	// C10: same dynamic type and shape - every value held in an interface (map values, interface
+	// fields) keeps its concrete type, containers keep their lengths and keys, pointers stay pointers
+	if a, o := skeleton(reflect.ValueOf(twin.Value.Interface()), 0), skeleton(reflect.ValueOf(r.Out.Payload), 0); a != o {
+		r.Problems = append(r.Problems, Problem{"copy", fmt.Sprintf("the forwarded payload does not have the input's dynamic types / shape: input %s, output %s", trunc(a, 300), trunc(o, 300))})
+	}
 	kb, _ := base.KeyBytes(context.Background())
 	r.Problems = append(r.Problems, CheckOutput(b, r.Out.Payload, KeyCtx{Wrapper: base, KeyBytes: kb, Salt: []byte("salt-f"), Info: []byte("info-f")})...)
 	return r
+}
+
+// skeleton renders the dynamic type structure of a value: concrete types behind interfaces, container
+// lengths, map keys (sorted), nil-ness of pointers - everything about a payload except leaf contents.
+func skeleton(v reflect.Value, depth int) string {
+	if !v.IsValid() {
+		return "<invalid>"
+	}
+	if depth > 12 {
+		return "..."
+	}
+	switch v.Kind() {
+	case reflect.Interface:
+		if v.IsNil() {
+			return "iface(nil)"
+		}
+		return "iface(" + skeleton(v.Elem(), depth+1) + ")"
+	case reflect.Ptr:
+		if v.IsNil() {
+			return "*" + v.Type().Elem().String() + "(nil)"
+		}
+		if _, isMsg := v.Interface().(proto.Message); isMsg {
+			return v.Type().String()
+		}
+		return "*" + skeleton(v.Elem(), depth+1)
+	case reflect.Struct:
+		parts := []string{}
+		for i := 0; i < v.NumField(); i++ {
+			if v.Type().Field(i).PkgPath != "" {
+				continue
+			}
+			parts = append(parts, v.Type().Field(i).Name+":"+skeleton(v.Field(i), depth+1))
+		}
+		return v.Type().String() + "{" + strings.Join(parts, ",") + "}"
+	case reflect.Map:
+		if v.IsNil() {
+			return v.Type().String() + "(nil)"
+		}
+		keys := []string{}
+		for _, k := range v.MapKeys() {
+			keys = append(keys, fmt.Sprint(k.Interface())+":"+skeleton(v.MapIndex(k), depth+1))
+		}
+		sort.Strings(keys)
+		return v.Type().String() + "{" + strings.Join(keys, ",") + "}"
+	case reflect.Slice:
+		if v.IsNil() {
+			return v.Type().String() + "(nil)"
+		}
+		if v.Type().Elem().Kind() == reflect.Uint8 {
+			return "leaf" // string-like leaves are what the filter rewrites; their contents and whether a protected []byte comes back as text are judged per leaf, not here
+		}
+		parts := []string{}
+		for i := 0; i < v.Len(); i++ {
+			parts = append(parts, skeleton(v.Index(i), depth+1))
+		}
+		return v.Type().String() + "[" + strings.Join(parts, ",") + "]"
+	}
+	if v.Kind() == reflect.String {
+		return "leaf"
+	}
+	return v.Type().String()
 }
